@@ -550,6 +550,9 @@ func (oe *outEval) inlineLx(f *ssa.Function, args []ssa.Value, idx int, b *ssa.B
 			continue
 		}
 		fr2.orig[prm] = fr.rootOf(args[i])
+		if !isStringish(prm.Type()) {
+			oe.s.bindValue(prm, args[i])
+		}
 		if t, ok := oe.s.termOf(args[i], fr.env); ok {
 			fr2.env[prm] = t
 			// the argument's own guards in the caller still hold in the callee: keep them as a binding
@@ -800,6 +803,9 @@ func (oe *outEval) piecesOf(bs *bufSpec) {
 						if isBufRef(c.Args[i], bs.buf) {
 							hb = prm
 							continue
+						}
+						if !isStringish(prm.Type()) {
+							oe.s.bindValue(prm, c.Args[i])
 						}
 						if t, ok := oe.s.termOf(c.Args[i], fr.env); ok {
 							fr2.env[prm] = t
